@@ -205,7 +205,7 @@ PROPERTIES = {
         "rule": ("declared gate chains [g0..gk], k = 1..20 hops, gates on one module / a line of modules / random modules, named gates or clusters, channels "
                  "(bitrate, latency, zero jitter) on random hops; built by connect calls in EVERY permutation for k <= 5 (every orientation vector for k <= 4) "
                  "and random permutations / orientations above, with repeated calls mixed in; 1..4 uncontended messages per chain in both directions with send "
-                 "and send_in. Oracle = the declared chain: kind of every gate, path_iter from both ends (exact mirror images), path_end, channel(), symmetry "
+                 "and send_in, a fifth of them sent by a third module through a reference to the end gate. Oracle = the declared chain: kind of every gate, path_iter from both ends (exact mirror images), path_end, channel(), symmetry "
                  "after each connect, idempotence of repeated connects, rejection of a third peer; each message handled exactly once, by the owner of the far "
                  "end, at send time + sum of per-hop (latency + size*8/bitrate), with sender id, receiver id and last gate in the header. Non-trivial = chain "
                  "with >= 2 hops that checked clean; distinct = hash of the case."),
@@ -216,7 +216,8 @@ PROPERTIES = {
         ],
         "floor": {
             "quick": {"deliveries_checked": 100000, "chain_walks_checked": 100000, "repeated_connect_calls": 20000, "third_peer_rejections": 50000,
-                      "enumerated_connect_orders": 1000, "chains_with_channels": 30000, "chains_with_reverse_sends": 30000, "max_hops": 20},
+                      "enumerated_connect_orders": 1000, "chains_with_channels": 30000, "chains_with_reverse_sends": 30000, "max_hops": 20,
+                      "sends_by_a_third_module_through_a_gate_reference": 10000},
             "thorough": {"deliveries_checked": 2000000, "chain_walks_checked": 2000000, "repeated_connect_calls": 400000, "third_peer_rejections": 1000000,
                          "enumerated_connect_orders": 1000, "max_hops": 20},
         },
@@ -270,7 +271,8 @@ PROPERTIES = {
         "rule": ("1..3 async modules with 1..4 triggers each (inside at_sim_start, or a message at a generated instant; several triggers may share an instant): "
                  "spawn bursts of N tasks that yield k times and optionally sleep to a common deadline (timer wake-up of N tasks at once), notify_waiters "
                  "broadcasts to N waiting tasks, wake chains of depth <= 2000 through oneshot / mpsc / semaphore / join handles, one task draining up to 10000 "
-                 "channel items in one instant (tokio coop budget); N in {1,2,60,61,62,122,123,200,1000,5000}; each with tokio::spawn and with spawn_local "
+                 "channel items in one instant (tokio coop budget), N tasks woken by a processing element that consumes the trigger message (the handler never runs "
+                 "in that event); N in {1,2,60,61,62,122,123,200,1000,5000}; each with tokio::spawn and with spawn_local "
                  "(every tenth case: spawn_local work needing more than one LocalSet turn of 61 polls). Every task logs SimTime::now() after each await; the "
                  "instant its condition became true is known by construction; a later sentinel event of the module makes stranded work visible. Oracle: "
                  "logged now == enabling instant for every wake-up, every task finished at the end. Non-trivial = case with an instant needing > 61 polls; "
@@ -282,7 +284,8 @@ PROPERTIES = {
         "floor": {
             "quick": {"wakeups_observed": 5000000, "instants_needing_more_than_61_polls": 3000, "instants_needing_more_than_122_polls": 2000,
                       "scenarios_with_spawn_local": 1500, "spawn_local_over_budget_cases": 300, "scenarios_wake_chain": 1500,
-                      "scenarios_notify_broadcast": 500, "scenarios_channel_drain": 500, "scenarios_spawn_burst": 1500},
+                      "scenarios_notify_broadcast": 500, "scenarios_channel_drain": 500, "scenarios_spawn_burst": 1500,
+                      "scenarios_message_consumed_by_processing_element": 500},
             "thorough": {"wakeups_observed": 100000000, "instants_needing_more_than_61_polls": 60000, "instants_needing_more_than_122_polls": 40000,
                          "scenarios_with_spawn_local": 30000, "spawn_local_over_budget_cases": 6000},
         },
@@ -418,7 +421,8 @@ PROPERTIES = {
         "rule": ("generated models: 2..8 modules in a double ring (two out gates per module) over channels with jitter {0, 1 ms, 20 ms}; handlers draw "
                  "des::runtime::random, choose the out gate and an extra send_in delay from it; start delays drawn with des::runtime::sample; tasks with "
                  "unbiased tokio::select! over three ready futures, select over interval.tick vs a long sleep, random sleeps; a third of the modules requests "
-                 "shutdown-and-restart (the restart rebuilds and reseeds the module's tokio runtime). For each (model, seed): executed twice back to back, once "
+                 "shutdown-and-restart (the restart rebuilds and reseeds the module's tokio runtime), a third emits a message from at_sim_end (never dispatched; "
+                 "it must not reach a later simulation). For each (model, seed): executed twice back to back, once "
                  "more after an unrelated simulation of another shape and seed, and (every fourth model) in a separate child process started with a random junk "
                  "allocation. The trace = every delivery (time, module path, kind, id, content, source, value drawn), timer completion, task wake-up, select "
                  "branch, plus final time / event count / remaining / result; all executions must be byte-identical. Non-trivial = model whose trace "
